@@ -8,7 +8,7 @@
    position and emits each as a replay case.                                            *)
 EXTENDS ShellLex, Json
 CONSTANTS Payloads
-Deliveries == {"var", "bvar", "dsub", "bqsub", "glob"}
+Deliveries == {"var", "bvar", "dsub", "bqsub", "glob", "var2", "var2r", "dsub2"}   \* ..2: a second, harmless reference in the same word
 Quotings   == {"unq", "dq"}
 Positions  == {"first", "middle", "last"}
 VARIABLES pay, del, q, pos, done
